@@ -153,7 +153,7 @@ Proof.
     pose proof (qos_of_sx_inv _ _ Hq) as Iq.
     cbn [concat] in Hfit. rewrite app_length in Hfit.
     assert (Hadd : exists s1, rqsc_add md s q = Some s1 /\ r_hdr s1 = r_hdr s /\ r_rcs s1 = q :: r_rcs s).
-    { unfold rqsc_add, add_m, cast, U32. rewrite Hql, (ri_len s I).
+    { unfold rqsc_add, add_m, add_c, cast, U32. rewrite Hql, (ri_len s I).
       rewrite !N.mod_small by lia.
       destruct (N.ltb_spec (N.of_nat (length r) + N.of_nat (length (Rqsc.rqsc_image s))) (2 ^ 32)); [|lia].
       cbn [option_bind]. eexists. split; [reflexivity|]. split; reflexivity. }
